@@ -188,6 +188,38 @@ func runC03(c *Ctx) error {
 			w.Count("entry.struct")
 		}
 	}
+	// a non-nil pointer is a supplied value even when it points at a zero scalar: required is satisfied
+	{
+		z32, zs, zb, zf := int32(0), "", false, 0.0
+		var zsl []int
+		for _, v := range []interface{}{&z32, &zs, &zb, &zf, &zsl} {
+			m := mark()
+			st := reflect.StructOf([]reflect.StructField{{Name: "F", Type: reflect.TypeOf(v), Tag: reflect.StructTag(`valid:"required|` + m + `"`)}})
+			sv := reflect.New(st).Elem()
+			sv.Field(0).Set(reflect.ValueOf(v))
+			call := &walkCall{Entry: "struct", Src: sv.Addr().Interface()}
+			term, desc := call.caseTerm([]string{"SNil", "SNoPanic"})
+			w.Add(term, desc, fmt.Sprintf("struct:ptr-to-zero:%T", v))
+			w.Count("entry.struct")
+		}
+	}
+	// a query key that occurs several times: every occurrence is a presented entry of its own
+	for _, q := range []struct {
+		query string
+		exps  func(m1, m2 string) []expE
+	}{
+		{"k=abc&p=1&k=", func(m1, m2 string) []expE { return []expE{{"C", "k", m2}, {"C", "k", m1}} }},   // abc violates eq=9, then the empty one is required
+		{"k=&p=1&k=abc", func(m1, m2 string) []expE { return []expE{{"C", "k", m1}, {"C", "k", m2}} }},
+		{"k=abc&k=abc", func(m1, m2 string) []expE { return []expE{{"C", "k", m2}, {"C", "k", m2}} }},
+		{"k=&k=", func(m1, m2 string) []expE { return []expE{{"C", "k", m1}, {"C", "k", m1}} }},
+		{"k=abcdefghi&p=2&k=", func(m1, m2 string) []expE { return []expE{{"C", "k", m1}} }},          // first satisfies both
+	} {
+		m1, m2 := mark(), mark()
+		call := &walkCall{Entry: "url", Rules: map[string]string{"k": "required|" + m1 + ",eq=9|" + m2}, Src: "http://h.example/p?" + q.query}
+		term, desc := call.caseTerm([]string{"SExpect true " + galExps(q.exps(m1, m2)), "SNoPanic"})
+		w.Add(term, desc, "url:repeated-key:"+q.query)
+		w.Count("entry.url-repeated")
+	}
 	// known finding C03-missing-entry replayed on the implementation
 	f1 := valid.Map(map[string]string{"b": "x"}, valid.RM{"a": "required"}) == nil
 	f2 := valid.Url("http://a.b?b=1", valid.RM{"a": "required"}) == nil
